@@ -14,7 +14,7 @@ pub fn spec(prop: &str) -> Option<CheckSpec> {
         "C11" => Some(CheckSpec {
             prop: "C11",
             level: "fault_enumeration",
-            rule: "Each run is one plan: a source byte string delivered through update_reader / &mut dyn Read / io::copy by a scripted reader (short reads, Interrupted, hard errors, early EOF, junk beyond n). Per base plan the fault kinds {Interrupted, Err, 1-byte read, early EOF} are enumerated at every call index 0..48 of the script, plus one random faulty script and the fault-free base. Oracle: Ok => reader reached EOF and the hasher equals the one-shot hash of exactly the bytes yielded; Err => the injected error (kind and identity) and the hasher equals the one-shot hash of the bytes yielded before it; count() equals bytes yielded; no read after EOF/error. File half: update_mmap, update_mmap_rayon and update_reader(File) on scratch files of lengths around the 16 KiB threshold must all equal the one-shot hash. distinct_nontrivial = distinct (partial-chunk class x stack popcount x alignment x mode x adapter) hasher state shapes reached.",
+            rule: "Each run is one plan: a source byte string delivered through update_reader / &mut dyn Read / io::copy by a scripted reader (short reads, Interrupted, hard errors, early EOF, junk beyond n; random scripts also contain storms of 2..500 consecutive Interrupted results). Per base plan the fault kinds {Interrupted, Err, 1-byte read, early EOF} are enumerated at every call index 0..48 of the script, plus one random faulty script and the fault-free base. Oracle: Ok => reader reached EOF and the hasher equals the one-shot hash of exactly the bytes yielded; Err => the injected error (kind and identity) and the hasher equals the one-shot hash of the bytes yielded before it; count() equals bytes yielded; no read after EOF/error. File half: update_mmap, update_mmap_rayon and update_reader(File) on scratch files of lengths around the 16 KiB threshold must all equal the one-shot hash. distinct_nontrivial = distinct (partial-chunk class x stack popcount x alignment x mode x adapter) hasher state shapes reached.",
             families: vec![
                 Family { name: "c11-reader", gen: gen::c11_reader, quick: 120_000, thorough: 3_000_000, judge: Judge::Exec },
                 Family { name: "c11-file", gen: gen::c11_file, quick: 3_000, thorough: 60_000, judge: Judge::Exec },
@@ -56,7 +56,7 @@ pub fn spec(prop: &str) -> Option<CheckSpec> {
         "C08" => Some(CheckSpec {
             prop: "C08",
             level: "exploration",
-            rule: "Each run: update_with_join (the generic function behind update_rayon) driven through the scripted Join hook: per recursive split the plan decides left-first / right-first / concurrent (concurrent halves become child tasks interleaved by the baton scheduler at every kernel dispatch; pool width 1-8, saturated pools run inline). Inputs of 2..300 chunks (1024 thorough) after odd prefixes, levels forced so that degree 1/4/8/16 recursion shapes all occur. A sixth of the runs use real rayon pools (width 1,2,4,16) and update_mmap_rayon. Oracle: the state must be what serial update leaves: count(), finalize and 131 XOF bytes equal the one-shot function on the bytes absorbed, and the continuation (one more fragment, finalize again) agrees too. distinct_nontrivial = distinct schedule signatures + state shapes.",
+            rule: "Each run: update_with_join (the generic function behind update_rayon) driven through the scripted Join hook: per recursive split the plan decides left-first / right-first / concurrent (concurrent halves become child tasks interleaved by the baton scheduler at every kernel dispatch; pool width 1-8, saturated pools run inline). Inputs of 2..300 chunks (1024 thorough) after odd prefixes, levels forced so that degree 1/4/8/16 recursion shapes all occur. A sixth of the runs use real rayon pools (width 1,2,4,16, and the process's global pool, which the harness configures at start-up the way an application would) and update_mmap_rayon (large regular files, and a large sysfs file that cannot be mapped, hashed repeatedly). Oracle: the state must be what serial update leaves: count(), finalize and 131 XOF bytes equal the one-shot function on the bytes absorbed, and the continuation (one more fragment, finalize again) agrees too. distinct_nontrivial = distinct schedule signatures + state shapes.",
             families: vec![
                 Family { name: "c08", gen: gen::c08, quick: 60_000, thorough: 2_000_000, judge: Judge::Exec },
                 Family { name: "c08-c-tbb", gen: gen::c08_c, quick: 30_000, thorough: 1_000_000, judge: Judge::Exec },
@@ -69,12 +69,13 @@ pub fn spec(prop: &str) -> Option<CheckSpec> {
         "C18" => Some(CheckSpec {
             prop: "C18",
             level: "exploration",
-            rule: "Each run: 2-6 simulated caller tasks, each with its own program over its own instances (hasher histories through update/Write/Read adapters, XOF reader histories with seeks, one-shot calls), each task forced to its own SIMD level, interleaved by the baton scheduler at every kernel dispatch, detect() call, reader call and operation boundary (uniform / sticky / bursty schedules). Oracle (Solo): every task program is also executed alone and every operation must return the same bytes under interleaving; the per-operation oracles of C02/C03 apply as well. distinct_nontrivial = distinct schedule signatures + state shapes.",
+            rule: "Each run: 2-6 simulated caller tasks, each with its own program over its own instances (hasher histories through update/Write/Read adapters, XOF reader histories with seeks, one-shot calls), each task forced to its own SIMD level, interleaved by the baton scheduler at every kernel dispatch, detect() call, reader call and operation boundary (uniform / sticky / bursty schedules). Oracle (Solo): every task program is also executed alone and every operation must return the same bytes under interleaving; the per-operation oracles of C02/C03 apply as well. Readers of a task may be hit by runs of Interrupted results (8-500 in a row) or fail. Shared-file family: independent hashers on several tasks hash the same files through update_mmap, update_reader(File) and update_mmap_rayon (the latter on a one-thread pool whose worker carries the calling task's scheduler identity, so the inside of the call interleaves deterministically with the other tasks). Miri part (seeded scheduler, preemption at any basic block, race detector; quick: 40 interleavings, thorough: ~220): disjoint-instance programs, and clones of one OutputReader / Hasher with a history handed to 3-4 threads, each thread's results compared with the same program run alone. distinct_nontrivial = distinct schedule signatures + state shapes.",
             families: vec![
                 Family { name: "c18", gen: gen::c18, quick: 25_000, thorough: 1_500_000, judge: Judge::Solo },
                 Family { name: "c18-mixed-c", gen: gen::c18_mixed, quick: 30_000, thorough: 1_000_000, judge: Judge::Solo },
                 Family { name: "c18-streams", gen: gen::c18_streams, quick: 400, thorough: 15_000, judge: Judge::Solo },
                 Family { name: "c18-firstuse", gen: gen::c18_firstuse, quick: 480, thorough: 20_000, judge: Judge::FirstUse },
+                Family { name: "c18-sharedfile", gen: gen::c18_sharedfile, quick: 3_000, thorough: 100_000, judge: Judge::Solo },
             ],
             real: REAL_RUST.to_vec(),
             stubs: vec!["Rust cpufeatures detection cache is real but not schedulable (macro-generated private static): first-use race covered only by the process-level tier"],
@@ -99,7 +100,7 @@ pub fn spec(prop: &str) -> Option<CheckSpec> {
         "C09" => Some(CheckSpec {
             prop: "C09",
             level: "exploration",
-            rule: "Cluster family: an input > 1 chunk is decomposed (recursive left_subtree_len splits stopped at random depths, fixed 2^j-chunk groups, or a mix) into shards assigned to 1-6 simulated worker tasks; each worker hashes its shard with set_input_offset + any update fragmentation/adapter + finalize_non_root and sends the chaining value to the coordinator task; injected faults: worker crash mid-shard (partial hasher abandoned, shard recomputed on a fresh hasher, possibly elsewhere), duplicated and reordered CV messages. The coordinator merges by tree position (merge_subtrees_non_root / _root / _root_xof). Oracle: every shard CV and every merge = SpecModel; the root hash/XOF = the crate's one-shot function / finalize_xof on the whole input. Giant family: a virtual input length up to 2^64-1 is walked down with left_subtree_len (each value compared with the model's largest power of two below n) to a <= 64 KiB window at a chunk-aligned offset up to 2^64-1024 (chunk counters >= 2^32 and up to 2^54-1); only the window is hashed, as one subtree and as two merged halves, and compared with the model; max_subtree_len is compared with 1024*2^tz at every shard start. distinct_nontrivial = distinct state shapes + schedule signatures.",
+            rule: "Cluster family: an input > 1 chunk is decomposed (recursive left_subtree_len splits stopped at random depths, fixed 2^j-chunk groups, or a mix) into shards assigned to 1-6 simulated worker tasks; each worker hashes its shard with set_input_offset + any update fragmentation/adapter + finalize_non_root and sends the chaining value to the coordinator task; injected faults: worker crash mid-shard (partial hasher abandoned, shard recomputed on a fresh hasher, possibly elsewhere), duplicated and reordered CV messages, hand-over of a half-fed subtree hasher to a clone (clone / clone_from into a used hasher, original dropped). Context keys (hash_derive_key_context) are derived from one reused per-thread buffer right after a different context of the same length at the same address, and compared with the model. The coordinator merges by tree position (merge_subtrees_non_root / _root / _root_xof). Oracle: every shard CV and every merge = SpecModel; the root hash/XOF = the crate's one-shot function / finalize_xof on the whole input. Giant family: a virtual input length up to 2^64-1 is walked down with left_subtree_len (each value compared with the model's largest power of two below n) to a <= 64 KiB window at a chunk-aligned offset up to 2^64-1024 (chunk counters >= 2^32 and up to 2^54-1); only the window is hashed, as one subtree and as two merged halves, and compared with the model; max_subtree_len is compared with 1024*2^tz at every shard start. distinct_nontrivial = distinct state shapes + schedule signatures.",
             families: vec![
                 Family { name: "c09-cluster", gen: gen::c09, quick: 25_000, thorough: 800_000, judge: Judge::Exec },
                 Family { name: "c09-giant", gen: gen::c09_giant, quick: 25_000, thorough: 800_000, judge: Judge::Exec },
@@ -123,7 +124,7 @@ pub fn spec(prop: &str) -> Option<CheckSpec> {
         "C17" => Some(CheckSpec {
             prop: "C17",
             level: "exploration",
-            rule: "Histories (keyed and derive modes emphasised; partial blocks >= 8 bytes, stack depth >= 2, readers mid-block) with probe instants chosen by the plan: at a probe the task formats {:?}/{:#?} of the Hasher / OutputReader, or snapshots the live object's memory, calls zeroize() and snapshots again (Hasher, OutputReader, Hash). Oracles: (in-run) the text contains no rendering of a key/CV/input word and no 8 consecutive non-zero bytes survive zeroize() unchanged; (self-composition) the same plan re-executed with every secret byte (keys, contexts, inputs) XOR-swapped must print byte-identical Debug text at every probe and leave memory that does not differ in any window of >= 8 bytes. distinct_nontrivial = distinct state shapes at the probes.",
+            rule: "Histories (keyed and derive modes emphasised; partial blocks >= 8 bytes, stack depth >= 2, readers mid-block; a quarter of the hashers are subtree hashers with a hazmat input offset) with probe instants chosen by the plan: at a probe the task formats {:?}/{:#?} of the Hasher / OutputReader, or snapshots the live object's memory, calls zeroize() and snapshots again (Hasher, OutputReader, Hash). Oracles: (in-run) the text contains no rendering of a key/CV/input word and no 8 consecutive non-zero bytes survive zeroize() unchanged; (self-composition) the same plan re-executed with every secret byte (keys, contexts, inputs) XOR-swapped must print byte-identical Debug text at every probe and leave memory that does not differ in any window of >= 8 bytes. distinct_nontrivial = distinct state shapes at the probes.",
             families: vec![Family { name: "c17", gen: gen::c17, quick: 60_000, thorough: 2_000_000, judge: Judge::SelfCompose }],
             real: REAL_RUST.to_vec(),
             stubs: vec![],
@@ -132,7 +133,7 @@ pub fn spec(prop: &str) -> Option<CheckSpec> {
         "C06" => Some(CheckSpec {
             prop: "C06",
             level: "exploration",
-            rule: "Each run drives the C library (c/blake3.c + dispatcher + every kernel; assembly flavour and C-intrinsics flavour both linked, chosen per hasher) through blake3_hasher_* only: initialiser in {init, init_keyed, init_derive_key, init_derive_key_raw (any bytes, embedded NUL, > 1 chunk)}, updates cut like the C02 delivery scripts (zero-length updates with a dangling pointer included; update_tbb with the simulator as the TBB seam in the tbb family), interleaved finalize(out_len) / finalize_seek(seek, out_len) with the C03 position distribution, reset, struct-copy clones; the CPU feature mask of the run is a random subset of the detected mask (AVX512VL without AVX512F included). Oracle: output = SpecModel S[seek..seek+out_len] = the Rust crate's bytes on the same history; hasher fields unchanged by finalize and by zero-length updates; reset = freshly initialised fields; both derive-key initialisers agree; canaries around every output buffer. distinct_nontrivial = distinct (flavour x state x seek alignment x length class) shapes.",
+            rule: "Each run drives the C library (c/blake3.c + dispatcher + every kernel; assembly flavour and C-intrinsics flavour both linked, chosen per hasher) through blake3_hasher_* only: initialiser in {init, init_keyed, init_derive_key, init_derive_key_raw (any bytes, embedded NUL, > 1 chunk)}, updates cut like the C02 delivery scripts (zero-length updates with a dangling pointer included; update_tbb with the simulator as the TBB seam in the tbb family), interleaved finalize(out_len) / finalize_seek(seek, out_len) with the C03 position distribution, reset, struct-copy clones; the CPU feature mask of the run is a random subset of the detected mask (AVX512VL without AVX512F included), or left undefined so that the dispatcher detects the CPU during the first call of the history. Oracle: output = SpecModel S[seek..seek+out_len] = the Rust crate's bytes on the same history; hasher fields unchanged by finalize and by zero-length updates; reset = freshly initialised fields; both derive-key initialisers agree; canaries around every output buffer. distinct_nontrivial = distinct (flavour x state x seek alignment x length class) shapes.",
             families: vec![
                 Family { name: "c06", gen: gen::c06, quick: 60_000, thorough: 4_000_000, judge: Judge::Exec },
                 Family { name: "c06-tbb", gen: gen::c06_tbb, quick: 30_000, thorough: 1_000_000, judge: Judge::Exec },
@@ -144,11 +145,12 @@ pub fn spec(prop: &str) -> Option<CheckSpec> {
         "C12" => Some(CheckSpec {
             prop: "C12",
             level: "exploration",
-            rule: "The real b3sum binary (repository source, shadow manifest) runs as a process in a per-run sandbox directory. Hash family: file sets (sizes on both sides of 16 KiB, empty files, missing files, stdin as '-'), flag swarm over --keyed (stdin key of length 0..40), --derive-key, --length, --seek (C03 positions), --no-mmap, --num-threads, --raw, --no-names, --tag and combinations clap must refuse; oracle: stdout bytes = the library's extended output S[seek..seek+length] computed in the harness, in the documented line format; refused invocations print no digest and exit non-zero; exit status 0 iff every input was readable. Check family: checkfiles produced by real b3sum, then faults between the two runs (listed file deleted / modified / truncated / replaced by a directory; checkfile lines damaged by single-character edits, spliced malformed lines, CRLF rewriting, truncation, invalid UTF-8, a checkfile that does not exist, several checkfiles, checkfile on stdin); oracle: a line-by-line model of the documented format classifies every entry, exit status 0 iff all entries are OK, every later entry is still reported in order, a panic (exit 101) is a violation; for unreadable / non-UTF-8 checkfiles only the non-zero exit status is required. distinct_nontrivial = distinct (flag set x outcome) classes.",
+            rule: "The real b3sum binary (repository source, shadow manifest) runs as a process in a per-run sandbox directory. Hash family: file sets (sizes on both sides of 16 KiB, empty files, missing files, stdin as '-'), flag swarm over --keyed (stdin key of length 0..40), --derive-key, --length, --seek (C03 positions), --no-mmap, --num-threads, --raw, --no-names, --tag and combinations clap must refuse; oracle: stdout bytes = the library's extended output S[seek..seek+length] computed in the harness, in the documented line format; refused invocations print no digest and exit non-zero; exit status 0 iff every input was readable. Check family: checkfiles produced by real b3sum, then faults between the two runs (listed file deleted / modified / truncated / replaced by a directory; checkfile lines damaged by single-character edits, spliced malformed lines, CRLF rewriting, truncation, invalid UTF-8, a checkfile that does not exist, several checkfiles, checkfile on stdin); oracle: a line-by-line model of the documented format classifies every entry, exit status 0 iff all entries are OK, every later entry is still reported in order, a panic (exit 101) is a violation; for unreadable / non-UTF-8 checkfiles only the non-zero exit status is required. Many-failures family: 255..257, 512, 768, 1024, 65536(+256) failing entries spread over one or two checkfiles (the count that decides the exit status passes every 8- and 16-bit boundary); the hash family includes outputs of 64 KiB..1 MiB. distinct_nontrivial = distinct (flag set x outcome) classes.",
             families: vec![
                 Family { name: "c12-hash", gen: gen::c12_hash, quick: 1_500, thorough: 30_000, judge: Judge::Exec },
                 Family { name: "c12-check", gen: gen::c12_check, quick: 1_200, thorough: 30_000, judge: Judge::Exec },
                 Family { name: "c12-syscall", gen: gen::c12_syscall, quick: 240, thorough: 8_000, judge: Judge::Exec },
+                Family { name: "c12-manyfail", gen: gen::c12_manyfail, quick: 96, thorough: 3_000, judge: Judge::Exec },
             ],
             real: vec!["/repo/b3sum/src/main.rs built through /verif/shadow/b3sum (release)", "/repo/src", "clap, rayon-core, memmap2, anyhow, hex", "kernel VFS, pipes, process exit status"],
             stubs: vec!["wild::args_os = std::env::args_os (what wild is on Unix)", "clap without the wrap_help feature (terminal_size not in the cargo cache)"],
@@ -157,7 +159,7 @@ pub fn spec(prop: &str) -> Option<CheckSpec> {
         "C13" => Some(CheckSpec {
             prop: "C13",
             level: "exploration",
-            rule: "End-to-end family: files whose names are built from an alphabet rich in the characters that matter (space, double space, ') = ', 'BLAKE3 (', backslash, LF, CR, literal backslash-n, multi-byte UTF-8, invalid UTF-8 bytes, U+FFFD) and pairs engineered to collide under a sloppy parser (contents differ) are hashed by real b3sum (plain and --tag), the checkfile is optionally rewritten to CRLF / damaged, and verified by real b3sum --check: representable paths must come back OK under exactly their own name, unrepresentable ones must fail. In-process family (b3sum's main.rs compiled into the harness by include!): for each path the line is built with the real filepath_to_string and parsed back with the real parse_check_line (must round-trip, or be rejected if unrepresentable), and every single-character substitution / insertion / deletion at every position (15 characters incl. NUL, U+FFFD, multi-byte, backslash, CR, LF) plus every truncation is parsed: never a panic, and Ok only with the path and 64 lowercase hex digits the documented format gives. distinct_nontrivial = distinct outcome classes.",
+            rule: "End-to-end family: files whose names are built from an alphabet rich in the characters that matter (space, double space, ') = ', 'BLAKE3 (', backslash, LF, CR, literal backslash-n, multi-byte UTF-8, invalid UTF-8 bytes, U+FFFD) and pairs engineered to collide under a sloppy parser (contents differ) are hashed by real b3sum (plain and --tag), the checkfile is optionally rewritten to CRLF / damaged, and verified by real b3sum --check: representable paths must come back OK under exactly their own name, unrepresentable ones must fail; some paths are nested directories of up to 3.9 KiB of characters that need escaping (checkfile lines of ~8 KiB), and plain and --tag checkfiles are concatenated into one mixed file. In-process family (b3sum's main.rs compiled into the harness by include!): for each path the line is built with the real filepath_to_string and parsed back with the real parse_check_line (must round-trip, or be rejected if unrepresentable), and every single-character substitution / insertion / deletion at every position (15 characters incl. NUL, U+FFFD, multi-byte, backslash, CR, LF) plus every truncation is parsed: never a panic, and Ok only with the path and 64 lowercase hex digits the documented format gives (if a refactoring changes the shape of these private items the harness build detects it and this family is skipped; the probe b3sum_private_parser_unavailable_skipped then appears in the evidence). distinct_nontrivial = distinct outcome classes.",
             families: vec![
                 Family { name: "c13-parse", gen: gen::c13_parse, quick: 6_000, thorough: 300_000, judge: Judge::Exec },
                 Family { name: "c13-e2e", gen: gen::c13_e2e, quick: 1_200, thorough: 30_000, judge: Judge::Exec },
@@ -169,11 +171,12 @@ pub fn spec(prop: &str) -> Option<CheckSpec> {
         "C07" => Some(CheckSpec {
             prop: "C07",
             level: "exploration",
-            rule: "What the simulator controls here is the environment of native code: where every caller-visible buffer lives and what surrounds a call. Kernel family: direct calls of every kernel of every flavour the CPU can run - unix assembly (ca_), C intrinsics and portable C (ci_), Windows-GNU assembly assembled for ELF and called through a Win64 trampoline (win_), and the crate's own kernels through Platform - with arguments inside the documented domain (num_inputs 0..2*degree+1, 1 or 16 blocks per input, counters near 2^32 and 2^64, any flag bytes, 1..33 XOF blocks); each buffer (inputs, input-pointer array, key/cv, block, out) sits flush before or after a PROT_NONE page or at a misaligned interior position, canaries fill the rest of its pages; assembly and C kernels are entered through a trampoline that plants per-call pseudo-random sentinels in the callee-saved registers of the ABI (SysV: rbx rbp r12-r15; Win64 additionally rdi rsi xmm6-xmm15) and compares them, rsp and DF afterwards. API families: the C06 histories and Rust reader/XOF histories with guard-placed inputs, outputs and (C) hasher objects. Monitors: SIGSEGV/SIGBUS/SIGILL (reported through a crash record, replayed in a child process), canaries, register sentinels. distinct_nontrivial = distinct (kernel x input count x block count x placement) shapes + API state shapes.",
+            rule: "What the simulator controls here is the environment of native code: where every caller-visible buffer lives and what surrounds a call. Kernel family: direct calls of every kernel of every flavour the CPU can run - unix assembly (ca_), C intrinsics and portable C (ci_), Windows-GNU assembly assembled for ELF and called through a Win64 trampoline (win_), and the crate's own kernels through Platform - with arguments inside the documented domain (num_inputs 0..2*degree+1, 1 or 16 blocks per input, counters near 2^32 and 2^64, any flag bytes, 1..33 XOF blocks); each buffer (inputs, input-pointer array, key/cv, block, out) sits flush before or after a PROT_NONE page or at a misaligned interior position, canaries fill the rest of its pages; assembly and C kernels are entered through a trampoline that plants per-call pseudo-random sentinels in the callee-saved registers of the ABI (SysV: rbx rbp r12-r15; Win64 additionally rdi rsi xmm6-xmm15) and compares them, rsp and DF afterwards. API families: the C06 histories and Rust reader/XOF histories with guard-placed inputs, outputs and (C) hasher objects. Huge-output family: one blake3_hasher_finalize(_seek) with out_len = 2^32 + {0..200} into a virtual window (a 2 MiB memfd mapped 2049 times, inaccessible page behind it), judged by the monitors only. Monitors: SIGSEGV/SIGBUS/SIGILL (reported through a crash record, replayed in a child process), canaries, register sentinels. distinct_nontrivial = distinct (kernel x input count x block count x placement) shapes + API state shapes.",
             families: vec![
                 Family { name: "c07-kernels", gen: gen::c07_kernels, quick: 60_000, thorough: 1_500_000, judge: Judge::Exec },
                 Family { name: "c07-c-api", gen: gen::c07_capi, quick: 20_000, thorough: 600_000, judge: Judge::Exec },
                 Family { name: "c07-rust-api", gen: gen::c07_rustapi, quick: 20_000, thorough: 600_000, judge: Judge::Exec },
+                Family { name: "c07-hugeout", gen: gen::c07_hugeout, quick: 2, thorough: 16, judge: Judge::Exec },
             ],
             real: vec!["/repo/c: all four unix .S files, all four windows_gnu .S files (assembled for ELF), blake3_{portable,sse2,sse41,avx2,avx512}.c, blake3.c, blake3_dispatch.c", "/repo/src kernels through blake3::platform::Platform"],
             stubs: vec!["MSVC .asm, NEON and wasm32 kernels cannot be built or run here"],
